@@ -521,6 +521,8 @@ class Interp:
                 raise AnalysisError(f"absint: {base.cls} has no attribute {e.attr}")
             if isinstance(base, (int, float, complex)) and not isinstance(base, bool) and e.attr in ("real", "imag"):
                 return getattr(base, e.attr)
+            if base is dict and e.attr == "fromkeys":
+                return _PyCall(lambda it, v=None: dict.fromkeys(self.iterate(it), v))
             if isinstance(base, _Cls):
                 m = self.find_method(base.name, e.attr)
                 if m is not None:
